@@ -206,7 +206,7 @@ def _baseline(spec):
 def _labels(spec, fault, b, o0):
     vk = spec["conns"][0]["kind"]
     by = sorted(c["kind"] for c in spec["conns"][1:])
-    return ["victim:" + vk, "fault:" + fault["kind"], "bystanders:" + "+".join(by)]
+    return ["victim:" + vk, "fault:" + fault["kind"], "bystanders:" + "+".join(by)] + (["foreign-traffic-on-a-connection's-client-port-number"] if fault.get("noise_port_of_conn") else [])
 
 
 def _victim_exports(spec, b, o0):
@@ -453,6 +453,11 @@ def single_fault_scenario(draw):
         sc["conns"][0] = dict(sc["conns"][0], sh_suite=draw(st.sampled_from([u for u in UNKNOWN_SUITES if u not in table])))
     elif kind == "foreign":
         f["noise"] = draw(noise_spec())
+        if draw(st.integers(0, 2)) == 0:
+            # "to any port": also to / from a port number that a connection of the capture uses as its client port (other hosts)
+            tgt = draw(st.sampled_from(sc["conns"]))["ep"]
+            f["noise"]["ep"] = dict(f["noise"]["ep"], **{draw(st.sampled_from(["sport", "sport", "cport"])): tgt["cport"]})
+            f["noise_port_of_conn"] = True
     sc["fault"] = f
     return sc
 
